@@ -1,5 +1,6 @@
 #![expect(unused_doc_comments)]
 #![cfg_attr(not(test), no_std)]
+#![allow(unexpected_cfgs)]
 #![warn(clippy::pedantic)]
 #![expect(
     clippy::module_name_repetitions,
